@@ -1019,7 +1019,17 @@ impl<'a> AstResolver<'a> {
             .define_type(id.string, ty)
             .map_err(|e| match e {
                 DefineTypeError::TypeAlreadyDefined => panic!("type should not be already defined"),
-                DefineTypeError::CannotDefineResource => panic!("type should not be a resource"),
+                DefineTypeError::CannotDefineResource => match stmt {
+                    ast::TypeStatement::Type(ast::TypeDecl::Alias(ast::TypeAlias {
+                        kind: ast::TypeAliasKind::Type(ast::Type::Ident(target)),
+                        ..
+                    })) => Error::InvalidAliasType {
+                        name: target.string.to_string(),
+                        kind: "resource".to_string(),
+                        span: target.span,
+                    },
+                    _ => panic!("type should not be a resource"),
+                },
                 DefineTypeError::InvalidExternName { .. } => panic!("parsed an invalid type name"),
                 DefineTypeError::ExportConflict { name } => Error::DeclarationConflict {
                     name,
